@@ -862,7 +862,9 @@ Theorem net_params_pinned :
   g_auth_msg_len = 65 + 32 + 64 + 32 + 1 /\ g_auth_resp_len = 64 + 32 + 1 /\ g_ecies_overhead = 65 + 16 + 32 /\
   g_enc_auth_msg_len = g_auth_msg_len + g_ecies_overhead /\ g_enc_auth_resp_len = g_auth_resp_len + g_ecies_overhead /\
   g_enc_auth_msg_len = 307 /\ g_enc_auth_resp_len = 210 /\
-  g_handshake_timeout_ms = 5000 /\ g_frame_read_timeout_ms = 30000.
+  g_handshake_timeout_ms = 5000 /\ g_frame_read_timeout_ms = 30000 /\
+  (* DiscSubprotocolError = 0x10 is the last named disconnect reason *)
+  g_disc_table_len = 17.
 Proof. vm_compute. repeat split; try reflexivity; try discriminate; repeat constructor. Qed.
 
 (* ------------------------------------------------------------------ *)
@@ -1190,4 +1192,51 @@ Proof.
     destruct (N.eqb_spec (b2n b) 0).
     + cbn [andb] in Ez. destruct (IH Ez) as (b' & Hin & Hb). exists b'. split; [now right|assumption].
     + exists b. split; [now left|assumption].
+Qed.
+
+(* ------------------------------------------------------------------ *)
+(* GetBlockHeaders serving and disconnect reasons                     *)
+(* ------------------------------------------------------------------ *)
+Lemma hdr_loop_bounded : forall fuel H hm rev amount skip cur count,
+  count <= max_header_fetch ->
+  lenN (hdr_loop fuel H hm rev amount skip cur count) + count <= max_header_fetch /\
+  (Z.of_N (lenN (hdr_loop fuel H hm rev amount skip cur count) + count) <= Z.max (Z.of_N count) (int_of_u64 amount))%Z /\
+  Forall (fun n => n <= H) (hdr_loop fuel H hm rev amount skip cur count).
+Proof.
+  induction fuel as [|f IH]; intros H hm rev amount skip cur count Hc; cbn [hdr_loop].
+  - rewrite lenN_nil. repeat split; try lia. constructor.
+  - destruct (Z.ltb_spec (Z.of_N count) (int_of_u64 amount)) as [Ha|Ha]; cbn [andb negb];
+      [|rewrite lenN_nil; repeat split; try lia; constructor].
+    destruct (count * est_header_rlp_size <? soft_response_limit); cbn [andb negb];
+      [|rewrite lenN_nil; repeat split; try lia; constructor].
+    destruct (N.ltb_spec count max_header_fetch) as [Hlt|]; cbn [andb negb];
+      [|rewrite lenN_nil; repeat split; try lia; constructor].
+    destruct (N.ltb_spec H cur) as [|Hle]; [rewrite lenN_nil; repeat split; try lia; constructor|].
+    destruct (hdr_next H hm rev skip cur) as [c|].
+    + destruct (IH H hm rev amount skip c (count + 1) ltac:(lia)) as (B1 & B2 & B3).
+      rewrite lenN_cons. repeat split; try lia. constructor; [lia|exact B3].
+    + rewrite lenN_cons, lenN_nil. repeat split; try lia. constructor; [lia|constructor].
+Qed.
+
+(* whatever the query fields are: at most MaxHeaderFetch headers, at most int(Amount), all of them existing *)
+Theorem serve_headers_bounded : forall H hashmode origin amount skip reverse,
+  lenN (serve_headers H hashmode origin amount skip reverse) <= max_header_fetch /\
+  (Z.of_N (lenN (serve_headers H hashmode origin amount skip reverse)) <= Z.max 0 (int_of_u64 amount))%Z /\
+  Forall (fun n => n <= H) (serve_headers H hashmode origin amount skip reverse).
+Proof.
+  intros H hm [o|] amount skip rev; unfold serve_headers.
+  - destruct (hdr_loop_bounded 200 H hm rev amount skip o 0 (N.le_0_l _)) as (B1 & B2 & B3).
+    rewrite N.add_0_r in *. repeat split; try lia; assumption.
+  - rewrite lenN_nil. split; [apply N.le_0_l|split; [cbn; lia|constructor]].
+Qed.
+
+(* the reason handed to DiscReason.String is whatever uint64 the peer chose *)
+Theorem disc_reason_range : forall payload, disc_reason payload < two64.
+Proof.
+  intros payload. unfold disc_reason. destruct (s_list payload) as [[pl r]|]; [|unfold two64; lia].
+  unfold s_uint. destruct (split pl) as [[[[] s0] r0]|]; try (unfold two64; lia).
+  cbn [item_to_uint]. destruct (no_lead0 s0 && ((64 =? 0) || (lenN s0 * 8 <=? 64))) eqn:E; [|unfold two64; lia].
+  apply andb_prop in E as [_ E]. cbn [N.eqb orb] in E.
+  pose proof (N_of_be_lt s0) as Hlt. assert (256 ^ lenN s0 <= 256 ^ 8) by (apply N.pow_le_mono_r; lia).
+  rewrite two64_eq. lia.
 Qed.
